@@ -118,6 +118,22 @@ def well_typed(tier):
             loc += f"    l = [{', '.join(elems)}]\n    g2 = [u(e) for e in l]\n    return [r0, out, g2]\n"
             loc += f"def u(p: {union}) -> str:\n    return str(p)\nr = loc()\n"
             yield loc
+    # comprehensions over sources of KNOWN element type (typed parameters - globals are typed Any), result constrained afterwards
+    comps = [("xs: list[str], n: int", "dict[str, int]", "{k: n for k in xs}", "ls, 3"),
+             ("xs: list[str]", "dict[str, int]", "{k: len(k) for k in xs}", "ls"),
+             ("xs: list[str]", "list[int]", "[len(k) for k in xs]", "ls"),
+             ("dd: dict[str, int]", "dict[int, str]", "{v: k for k, v in dd.items()}", "d"),
+             ("xs: list[int]", "dict[int, list[int]]", "{e: [e] for e in xs}", "l"),
+             ("xs: list[int]", "dict[str, int]", "{str(e): e for e in xs if e > 1}", "l"),
+             ("xs: list[str]", "dict[str, bool]", "{k: k == 'p' for k in xs}", "ls"),
+             ("xs: list[str]", "dict[int, str]", "{i: k for i, k in enumerate(xs)}", "ls"),
+             ("xs: list[int]", "list[(int, str)]", "[(e, str(e)) for e in xs]", "l"),
+             ("xs: list[str]", "dict[str, int]", "{a + b: 1 for a in xs for b in xs}", "ls")]
+    for params, rt, expr, args in comps:
+        yield pre + f"def w({params}) -> {rt}:\n    return {expr}\nr = w({args})\n"
+        yield pre + f"def w({params}) -> {rt}:\n    res = {expr}\n    return res\nr = w({args})\n"
+    yield pre + "def w(dd: dict[str, int]) -> int:\n    d2 = {k: v + 1 for k, v in dd.items()}\n    return d2['a'] + 1\nr = w(d)\n"
+    yield pre + "def w(xs: list[str]) -> int:\n    d2 = {k: len(k) for k in xs}\n    t = 0\n    for k in xs:\n        t += d2[k]\n    return t\nr = w(ls)\n"
     # results that may be None (dict.get, a conditional expression, a search that finds nothing) compared with None / defaulted
     for opt in ["dd.get(k)", "dd.get(k, None)", "(dd[k] if k in dd else None)", "{k: 1}.get('zz')", "[e for e in [1] if e > 5] or None"]:
         for test in ["v == None", "v != None", "None == v", "not v", "v", "type(v) == 'NoneType'"]:
